@@ -840,7 +840,7 @@ class ArgumentParser(ParserDeprecations, ActionsContainer, ArgumentLinking, argp
                 default = subdefaults[key]
                 class_object_val = None
                 if is_subclass_spec(val):
-                    if val["class_path"] != default.get("class_path"):
+                    if not isinstance(default, dict) or val["class_path"] != default.get("class_path"):
                         with parser_context(parent_parser=self):
                             parser = ActionTypeHint.get_class_parser(val["class_path"])
                         default = {"init_args": parser.get_defaults().as_dict()}
